@@ -333,7 +333,7 @@ def finish(pid, level, rules, t0, tier, explanation, assumptions, extra_cov=None
     }
     os.makedirs(EVIDENCE, exist_ok=True)
     with open(os.path.join(EVIDENCE, f"{pid}.json"), "w") as fh:
-        json.dump(ev, fh, indent=1)
+        json.dump(ev, fh, indent=1, default=repr)
     n_ok = sum(1 for r in rules if not r.violations)
     print(f"{pid}: {len(rules)} rules, {evaluations} instances examined, {nontrivial} non-trivial, {len(viol)} violations, {len(known_hits)} known findings, {ev['wall_s']} s [{tier}]")
     return 1 if viol else 0
